@@ -87,6 +87,11 @@ func checkTiming(r *R, sp engSpec, res *engResult) {
 			}
 			if e.Kind == "next" {
 				if e.OK {
+					if h := cur[e.Task]; h != nil && !cancelled {
+						// every token an instance picks up ends as a shot or, with discard_overflow, as a sample coded as
+						// discarded: here the instance went on to its next token with neither on record
+						r.Fail("token-neither-fired-nor-discarded", "the token scheduled at %v (picked up at %v) was neither fired nor reported as a discarded sample (777 / 'discarded') before the instance took its next token at %v (discard_overflow=%v, profile %s)", h.tok, h.pickup, e.T, sp.Discard, sp.RPS.Desc)
+					}
 					cur[e.Task] = &held{tok: e.Tok, pickup: e.T, ok: true}
 					if e.T > e.Tok {
 						late++
